@@ -80,6 +80,21 @@ def rmse(pa, pb):
 
 
 def run_case(case):
+    if case.get("debuglog"):
+        # evo's logger enabled for DEBUG, as in every CLI run and after
+        # log.configure_logging() in a script
+        import logging
+        lg = logging.getLogger("evo")
+        old = lg.level
+        lg.setLevel(logging.DEBUG)
+        try:
+            return _run_case(case)
+        finally:
+            lg.setLevel(old)
+    return _run_case(case)
+
+
+def _run_case(case):
     (Rs, ps), (rR, rp) = make_pair(case)
     N = len(ps)
     mode, n, storage = case["mode"], case["n"], case["storage"]
@@ -235,7 +250,7 @@ def shard_cases(arg):
         # small against the extent of the smaller point set and the 1e-9
         # tolerances would not be justified
         for gen, far in [(g, False) for g in gens] + [
-                (far_gen(gens[0]), True)]:
+                (far_gen(gens[0]), True), (gens[0], "debuglog")]:
             for noise in ("none", "one", "unrelated"):
                 for mode in MODES:
                     for n in (ns if mode != "origin" else [-1]):
@@ -244,7 +259,9 @@ def shard_cases(arg):
                             case = {"seq": list(seq), "gen": gen,
                                     "noise": noise, "mode": mode, "n": n,
                                     "storage": storage}
-                            if far:
+                            if far == "debuglog":
+                                case["debuglog"] = True
+                            elif far:
                                 case["far"] = True
                             msgs, info = run_case(case)
                             acc.count("evaluations")
@@ -429,7 +446,9 @@ def cli_part(ctx):
                                   case2, {"kind": "cli-fail"})
                     continue
                 msgs = check_recorded(A, Rs, ps, stored, "evo_%s %s n=%d" %
-                                      (tool, name, n), sc)
+                                      (tool, name, n), sc,
+                                      expected_matrix(name, Rs, ps, rR, rp,
+                                                      n))
                 if msgs:
                     acc.violation("cli", "; ".join(msgs), case2,
                                   {"kind": "recorded", "opt": name})
